@@ -37,21 +37,22 @@ Qed.
 (* ====================================================================================== *)
 Definition same_head (s s' : incdoc) : Prop :=
   d_binary_mark (xd_doc (i_new s')) = d_binary_mark (xd_doc (i_new s)) /\
-  d_version (xd_doc (i_new s')) = d_version (xd_doc (i_new s)).
+  d_version (xd_doc (i_new s')) = d_version (xd_doc (i_new s)) /\
+  d_max_id (xd_doc (i_new s)) <= d_max_id (xd_doc (i_new s')).      (* max_id never goes down *)
 
 Lemma same_head_refl s : same_head s s.
-Proof. split; reflexivity. Qed.
+Proof. split; [reflexivity|]. split; [reflexivity | apply N.le_refl]. Qed.
 Lemma same_head_trans a b c : same_head a b -> same_head b c -> same_head a c.
-Proof. intros [A1 A2] [B1 B2]. split; congruence. Qed.
+Proof. intros [A1 [A2 A3]] [B1 [B2 B3]]. split; [congruence|]. split; [congruence | eapply N.le_trans; eassumption]. Qed.
 
 Lemma set_new_objects_head s m : same_head s (set_new_objects s m).
-Proof. split; reflexivity. Qed.
+Proof. split; [reflexivity|]. split; [reflexivity | apply N.le_refl]. Qed.
 Lemma set_object_head s id o : same_head s (set_object s id o).
 Proof. apply set_new_objects_head. Qed.
 Lemma add_object_head s o s' id : add_object s o = Some (s', id) -> same_head s s'.
 Proof.
   unfold add_object. destruct (u32_top <=? d_max_id (xd_doc (i_new s))); [discriminate|].
-  intro H. inversion H; subst. split; reflexivity.
+  intro H. inversion H; subst. split; [reflexivity|]. split; [reflexivity|]. cbn [i_new xd_doc d_max_id]. lia.
 Qed.
 Lemma opt_clone_head s id s' : opt_clone s id = Some s' -> same_head s s'.
 Proof.
@@ -117,11 +118,33 @@ Lemma created_frame prev_bytes prev edits :
   let s := fold_left apply_edit edits (create_from prev_bytes prev) in
   i_bytes s = prev_bytes /\ i_prev s = prev /\
   d_trailer (xd_doc (i_new s)) = dict_set (d_trailer (xd_doc prev)) Save.K_Prev (OInt (Z.of_N (xd_start prev))) /\
-  d_binary_mark (xd_doc (i_new s)) = INC_BINARY_MARK.
+  d_binary_mark (xd_doc (i_new s)) = INC_BINARY_MARK /\
+  d_max_id (xd_doc prev) <= d_max_id (xd_doc (i_new s)).
 Proof.
   intro s. destruct (fold_edits_same edits (create_from prev_bytes prev)) as (H1 & H2 & H3 & _).
-  destruct (fold_edits_head edits (create_from prev_bytes prev)) as [H5 _].
-  fold s in H1, H2, H3, H5. split; [exact H1|]. split; [exact H2|]. split; [exact H3 | exact H5].
+  destruct (fold_edits_head edits (create_from prev_bytes prev)) as [H5 [_ H6]].
+  fold s in H1, H2, H3, H5, H6. split; [exact H1|]. split; [exact H2|]. split; [exact H3|]. split; [exact H5 | exact H6].
+Qed.
+
+(* the trailer part of [upd_dom] holds by construction *)
+Lemma created_upd_dom F v m xs xt entries t objs pd fmt edits :
+  good_file F v m xs xt entries t objs -> d_trailer pd = t ->
+  let s := fold_left apply_edit edits (create_from F {| xd_doc := pd; xd_start := xs; xd_type := fmt |}) in
+  let nd := xd_doc (i_new s) in
+  rev_dom nd -> known_deep nd = false -> upd_dom xs nd.
+Proof.
+  intros G Ht s nd Hr K.
+  destruct (created_frame F {| xd_doc := pd; xd_start := xs; xd_type := fmt |} edits) as (H1 & H2 & H3 & H4 & _).
+  fold s in H1, H2, H3, H4. fold nd in H3, H4. cbn [xd_doc xd_start] in H3. rewrite Ht in H3.
+  constructor.
+  - exact Hr.
+  - exact K.
+  - rewrite H4. reflexivity.
+  - rewrite H3. apply dict_get_set_same.
+  - rewrite H3. rewrite dict_get_set_other by discriminate. apply (gf_no_stm _ _ _ _ _ _ _ _ G).
+  - unfold dict_has. rewrite H3. rewrite dict_get_set_other by discriminate.
+    pose proof (gf_no_enc _ _ _ _ _ _ _ _ G) as He. change Loader.K_Encrypt with Save.K_Encrypt in He.
+    rewrite (dict_has_false_get _ _ He). reflexivity.
 Qed.
 
 (* ---------- the update made by lopdf from a loaded good file ---------- *)
@@ -140,18 +163,10 @@ Theorem inc_table_step_created F v m xs xt entries t objs pd edits :
             (Incremental.overlay objs (norm_objects (d_objects nd))).
 Proof.
   intros G Ht s nd Hr K Hlen Hids.
-  destruct (created_frame F {| xd_doc := pd; xd_start := xs; xd_type := XTable |} edits) as (H1 & H2 & H3 & H4).
-  fold s in H1, H2, H3, H4. fold nd in H3, H4. cbn [xd_doc xd_start] in H3. rewrite Ht in H3.
+  destruct (created_frame F {| xd_doc := pd; xd_start := xs; xd_type := XTable |} edits) as (H1 & H2 & _).
+  fold s in H1, H2.
   apply (inc_table_good_nums F v m xs xt entries t objs s G H1); [rewrite H2; reflexivity | | exact Hlen | exact Hids].
-  fold nd. constructor.
-  - exact Hr.
-  - exact K.
-  - rewrite H4. reflexivity.
-  - rewrite H3. apply dict_get_set_same.
-  - rewrite H3. rewrite dict_get_set_other by discriminate. apply (gf_no_stm _ _ _ _ _ _ _ _ G).
-  - unfold dict_has. rewrite H3. rewrite dict_get_set_other by discriminate.
-    pose proof (gf_no_enc _ _ _ _ _ _ _ _ G) as He. change Loader.K_Encrypt with Save.K_Encrypt in He.
-    rewrite (dict_has_false_get _ _ He). reflexivity.
+  apply (created_upd_dom F v m xs xt entries t objs pd XTable edits G Ht Hr K).
 Qed.
 
 (* ====================================================================================== *)
@@ -285,6 +300,58 @@ Proof.
   destruct (Hshape Hoff Hsep) as [Hst _]; try assumption; [rewrite Hprev; reflexivity | apply (ud_rev _ _ Hu) | apply (ud_mark _ _ Hu)].
 Qed.
 
+(* an update made through the modelled API (create_from + edits) from what load returned is a step of a history:
+   Prev, XRefStm, Encrypt, the binary mark and max_id need no hypothesis *)
+Theorem history_edit_step F xs fmt objs pd edits :
+  lopdf_history F xs fmt objs ->
+  load F = LOk pd (xtype_of fmt) ->
+  let s := fold_left apply_edit edits (create_from F {| xd_doc := pd; xd_start := xs; xd_type := fmt |}) in
+  let nd := xd_doc (i_new s) in
+  rev_dom nd -> known_deep nd = false ->
+  Save.blen (io_bytes (inc_save s)) < u32_mod ->
+  Forall (fun io : oid * obj => In (fst io) (map fst (d_objects pd)) \/ ~ In (fst (fst io)) (obj_numbers (d_objects pd))) (d_objects nd) ->
+  io_status (inc_save s) = IncOk /\
+  lopdf_history (io_bytes (inc_save s)) (io_start (inc_save s)) fmt (step_objs fmt objs nd (Save.blen (F ++ inc_lines nd))).
+Proof.
+  intros H Hload s nd Hr K Hlen Hids.
+  destruct (history_good F xs fmt objs H) as [v [m [entries [t G]]]].
+  pose proof Hload as Hload'. rewrite (good_file_loads _ _ _ _ _ _ _ _ G) in Hload'. inversion Hload' as [Epd].
+  destruct (created_frame F {| xd_doc := pd; xd_start := xs; xd_type := fmt |} edits) as (H1 & H2 & _ & _ & H5).
+  fold s in H1, H2, H5. fold nd in H5. cbn [xd_doc] in H5.
+  assert (Hu : upd_dom xs nd).
+  { apply (created_upd_dom F v m xs _ entries t objs pd fmt edits G); [rewrite <- Epd; reflexivity | exact Hr | exact K]. }
+  split.
+  - apply (history_update_ok F xs fmt objs pd s H H1 H2 Hu Hlen).
+  - apply (hist_update F xs fmt objs pd s H Hload H1 H2 Hu H5 Hlen Hids).
+Qed.
+
+(* save (either format), load, create_from, edit, inc_save, load *)
+Theorem inc_save_reload fmt d edits :
+  savable d -> known_deep d = false -> small_file fmt d -> dict_get (d_trailer d) K_XRefStm = None ->
+  let F := so_bytes (save fmt d) in
+  let prev := {| xd_doc := reloaded fmt d; xd_start := Save.blen (body_of d); xd_type := fmt |} in
+  let s := fold_left apply_edit edits (create_from F prev) in
+  let nd := xd_doc (i_new s) in
+  rev_dom nd -> known_deep nd = false -> Save.blen (io_bytes (inc_save s)) < u32_mod ->
+  Forall (fun io : oid * obj => In (fst io) (map fst (d_objects (reloaded fmt d))) \/
+                                ~ In (fst (fst io)) (obj_numbers (d_objects (reloaded fmt d)))) (new_objects s) ->
+  io_status (inc_save s) = IncOk /\
+  exists v m t mx,
+    load (io_bytes (inc_save s)) =
+    LOk {| d_version := v; d_binary_mark := m; d_trailer := t;
+           d_objects := step_objs fmt (d_objects (reloaded fmt d)) nd (Save.blen (F ++ inc_lines nd));
+           d_max_id := mx |} (xtype_of fmt).
+Proof.
+  intros S K Hs Hstm F prev s nd Hr Kn Hlen Hids.
+  pose proof (hist_save fmt d S K Hs Hstm) as Hh.
+  assert (Hl : load F = LOk (reloaded fmt d) (xtype_of fmt)).
+  { apply (load_save_gen fmt d); [apply savable_written; exact S | rewrite known_deep_written by exact S; exact K | exact Hs]. }
+  destruct (history_edit_step F _ fmt _ (reloaded fmt d) edits Hh Hl Hr Kn Hlen Hids) as [Hst Hh'].
+  split; [exact Hst|]. apply (history_loads _ _ _ _ Hh').
+Qed.
+
 Print Assumptions inc_save_reload_table.
 Print Assumptions history_good.
 Print Assumptions history_loads.
+Print Assumptions history_edit_step.
+Print Assumptions inc_save_reload.
